@@ -26,7 +26,8 @@ REQUIRED = {"deliveries": {"quick": 3000, "thorough": 100000},
             "unsub_in_callback": {"quick": 100, "thorough": 3000},
             "sub_in_callback": {"quick": 100, "thorough": 3000},
             "disposed_calls": {"quick": 300, "thorough": 8000},
-            "falsy_delivered": {"quick": 300, "thorough": 8000}}
+            "falsy_delivered": {"quick": 300, "thorough": 8000},
+            "runs:free": {"quick": 1000, "thorough": 20000}, "free_injected_yields": {"quick": 3000, "thorough": 60000}}
 
 
 def units(tier: str, seed: int) -> list[dict]:
